@@ -28,7 +28,7 @@ ASSUMPTIONS = ['detector contract: None or an index in [0, len-2]; t2 >= detecto
                'gate: endpoint-line SMAPE within 1e-9 of t1 (but not equal) is ambiguous',
                'self-similarity is differential (the wrapper on the two slices), no hand-written expectation']
 BOUNDS = {'quick': {'scripted': 'all answer sequences for n<=9, t2 in 0..4, 3 gate modes', 'real detectors': 'A n<=4, A12 n=5, A1 n=6,7, C n=4; t1 in {0,0.01,0.5}; t2 in {minimum, default}'},
-          'thorough': {'scripted': 'all answer sequences for n<=11 (t2=0), n<=12 (t2>=1)', 'real detectors': 'A n<=5, A12 n=6, A1 n=7,8, C n=5'}}
+          'thorough': {'scripted': 'all answer sequences for n<=11 (t2=0), n<=12 (t2>=1)', 'real detectors': 'A n<=5, G12Y013 n=6, A1 n=7,8, C n=5'}}
 TECHNIQUE = 'stateless choice-point exploration of the multi-knee wrapper with a scripted detector (all answer sequences) plus bounded-exhaustive differential self-similarity on the real detectors'
 LEVEL_TEXT = ('Model checking: (1) every answer sequence of an arbitrary contract-honouring detector up to n=9 (12 thorough) against the reference recursion - this covers the '
               'wrapper\'s control logic for all curves at once; (2) every small curve through the five bundled detectors: termination under the step monitor, range, emptiness and the '
@@ -203,7 +203,7 @@ def units(tier, seed):
     if tier == 'quick':
         plan = [('A', 3, 1), ('A', 4, 16), ('A12', 5, 32), ('A1', 6, 8), ('A1', 7, 32), ('C', 4, 4)]
     else:
-        plan = [('A', 3, 1), ('A', 4, 8), ('A', 5, 256), ('A12', 6, 256), ('A1', 7, 32), ('A1', 8, 128), ('C', 5, 32)]
+        plan = [('A', 3, 1), ('A', 4, 8), ('A', 5, 512), ('G12Y013', 6, 128), ('A1', 7, 64), ('A1', 8, 256), ('C', 5, 32)]
     b = curves.bonus(seed)
     plan.append((b.name, 4, 16))
     for prof, n, K in plan:
